@@ -28,6 +28,13 @@ func script(w *W) string {
 		src = strings.ReplaceAll(src, "$v = $nc->receive();\n    __e(", "$v = $nc->receive();\n    if ($v !== null) { $v = Show::of($v); }\n    __e(")
 		src += "class Show { public static function of($a) { $s = \"\"; foreach ($a as $k => $x) { $s .= $k . \"=\" . $x . \";\"; } return $s; } }\n"
 	}
+	if w.CallForm != "" {
+		// every send/receive/close/isClosed/len of the run goes through one helper per method (declared first: a
+		// function exists from the moment its declaration has run)
+		src = callRe.ReplaceAllString(src, "__m_$2($1, ")
+		src = strings.ReplaceAll(src, ", )", ")")
+		src = strings.Replace(src, "<?php\n", "<?php\n"+callHelpers[w.CallForm], 1)
+	}
 	return src
 }
 
@@ -369,4 +376,28 @@ func mutLabels(w *W) map[int]string {
 	}
 	mutCacheW, mutCache = w, m
 	return m
+}
+
+// "$c->send(X)" becomes "__m_send($c, X)"; "$c->receive()" becomes "__m_receive($c, )" and then "__m_receive($c)"
+var callRe = regexp.MustCompile(`(\$(?:ch|ch2|nc|nc2))->(send|receive|close|isClosed|len)\(`)
+
+var callHelpers = map[string]string{
+	"fcc": `function __m_send($c, $v) { $f = $c->send(...); return $f($v); }
+function __m_receive($c) { $f = $c->receive(...); return $f(); }
+function __m_close($c) { $f = $c->close(...); return $f(); }
+function __m_isClosed($c) { $f = $c->isClosed(...); return $f(); }
+function __m_len($c) { $f = $c->len(...); return $f(); }
+`,
+	"cuf": `function __m_send($c, $v) { return call_user_func([$c, "send"], $v); }
+function __m_receive($c) { return call_user_func([$c, "receive"]); }
+function __m_close($c) { return call_user_func([$c, "close"]); }
+function __m_isClosed($c) { return call_user_func([$c, "isClosed"]); }
+function __m_len($c) { return call_user_func([$c, "len"]); }
+`,
+	"dyn": `function __m_send($c, $v) { $m = "send"; return $c->$m($v); }
+function __m_receive($c) { $m = "receive"; return $c->$m(); }
+function __m_close($c) { $m = "close"; return $c->$m(); }
+function __m_isClosed($c) { $m = "isClosed"; return $c->$m(); }
+function __m_len($c) { $m = "len"; return $c->$m(); }
+`,
 }
